@@ -791,6 +791,40 @@ def mutate_gfx_tables(r, tabs):
     return tabs
 
 
+def mutate_cmap_subtable(r, cmap):
+    """a cmap table with the length of its first format 4 subtable made odd or one short - the table cut to match when the subtable
+    is its last part -, so that the last entry of the glyph-id array straddles the end (the `offset*2+1 >= length` guard of
+    CmapSubtable4Lookup); or the segment count / the last end code changed"""
+    b = bytearray(cmap)
+    if len(b) < 12 + 16:
+        return bytes(b)
+    n = int.from_bytes(b[2:4], "big")
+    subs = []
+    for i in range(min(n, 8)):
+        o = 4 + 8 * i
+        if o + 8 <= len(b):
+            subs.append(int.from_bytes(b[o + 4:o + 8], "big"))
+    f4 = [o for o in subs if o + 8 <= len(b) and int.from_bytes(b[o:o + 2], "big") == 4]
+    if not f4:
+        return bytes(b)
+    o = f4[0]
+    ln = int.from_bytes(b[o + 2:o + 4], "big")
+    k = r.randrange(4)
+    if k <= 1 and ln > 17:
+        d = r.choice([1, 1, 3])
+        b[o + 2:o + 4] = (ln - d).to_bytes(2, "big")
+        if o + ln == len(b) and (k == 0 or r.random() < 0.5):
+            b = b[:len(b) - d]
+    elif k == 2:
+        x = int.from_bytes(b[o + 6:o + 8], "big")
+        b[o + 6:o + 8] = (r.choice([x + 2, max(0, x - 2), x + 1, 0xFFFE]) & 0xFFFF).to_bytes(2, "big")
+    else:
+        nseg = int.from_bytes(b[o + 6:o + 8], "big") // 2
+        if nseg and o + 14 + 2 * nseg <= len(b):
+            b[o + 14 + 2 * (nseg - 1):o + 14 + 2 * nseg] = r.choice([b"\xff\xfe", b"\x00\x00", b"\xff\xff"])
+    return bytes(b)
+
+
 def gen_name_table(r):
     """-> (platform, encoding, table bytes, queries): a name table with Mac and Windows records (sorted as the format wants), usually with
     a count, the string offset, a record's offset or length or the table's length changed"""
